@@ -7,6 +7,7 @@ import RubyTi.Model.Sig
 import RubyTi.Model.Rbs
 import RubyTi.Model.C2json
 import RubyTi.Model.Suggest
+import RubyTi.Model.Inherit
 import RubyTi.Model.Namespace
 import RubyTi.Model.Match
 import RubyTi.Model.Unify
@@ -308,6 +309,40 @@ def opRet (args : String) : String :=
     T.enc r.1 ++ " " ++ Unify.typeToString FUEL r.1 ++ " | " ++ T.enc r.2
   | _ => "BAD-ARGS"
 
+def dashS (s : String) : Str := if s == "-" then [] else s.toList
+
+/-- lookup <i|c> <frame> <cls> <method> <priv> | methods | edges | builtin classes -/
+def opLookup (args : String) : String :=
+  match args.splitOn " | " with
+  | [q, ms, es, bcs] =>
+    let keys : List Frame.FrameKey := ((ms.trimAscii.toString.splitOn ";").filter (· != "")).map fun e =>
+      match e.splitOn "~" with
+      | [f, c, m, p, st] =>
+        if st == "1" then Frame.classMethodKey (dashS f) (dashS c) m.toList (p == "1")
+        else Frame.methodKey (dashS f) (dashS c) m.toList (p == "1")
+      | _ => Frame.methodKey [] [] [] false
+    let tbl : Inherit.Methods := keys.foldl (fun t k => Frame.insert t k ()) []
+    let g : Inherit.Inh := ((es.trimAscii.toString.splitOn ";").filter (· != "")).foldl (fun g e =>
+      match e.splitOn "~" with
+      | [cf, cc, pf, pc, inc, ext] =>
+        let k := (dashS cf, dashS cc)
+        let node : Inherit.Node := { frame := dashS pf, cls := dashS pc, isInclude := inc == "1", isExtend := ext == "1" }
+        Frame.insert g k ((Frame.lookup g k).getD [] ++ [node])
+      | _ => g) []
+    let bc := ((bcs.trimAscii.toString.splitOn ",").filter (· != "")).map String.toList
+    match q.splitOn " " with
+    | [kind, f, c, m, p] =>
+      let fuel := 4 * (es.length + 4)
+      let r := if kind == "c" then Inherit.getClassMethodT fuel tbl g bc (dashS f) (dashS c) m.toList (p == "1")
+               else Inherit.getMethodT fuel tbl g bc (dashS f) (dashS c) m.toList (p == "1")
+      match r with
+      | none => "none"
+      | some k => match keys.findIdx? (· == k) with
+        | some i => "R" ++ toString i
+        | none => "R?"
+    | _ => "BAD-ARGS"
+  | _ => "BAD-ARGS"
+
 def rbsParam (s : String) : Rbs.Param :=
   if s == "_" then none else some (((s.splitOn ",").filter (· != "")).map String.toList)
 
@@ -364,6 +399,7 @@ def dispatch (line : String) : String :=
   else if name == "prio" then opPrio args
   else if name == "sortsig" then opSortSig args
   else if name == "suggest" then opSuggest args
+  else if name == "lookup" then opLookup args
   else if name == "match" then opMatch args
   else if name == "ret" then opRet args
   else if name == "appendv" then opAppendV args
